@@ -279,3 +279,122 @@ end XmppVerif.Props.C20
 #print axioms XmppVerif.Props.C20.C20_constructor
 #print axioms XmppVerif.Props.C20.C20_witness_ws_host
 #print axioms XmppVerif.Props.C20.C20_ws_only_known
+
+set_option linter.unusedSimpArgs false
+namespace XmppVerif.Props.C20
+open XmppVerif.Model.C20 XmppVerif.Spec.C20
+
+private theorem splitLast_none (c : Char) : ∀ s : List Char, c ∉ s → splitLast c s = none := by
+  intro s
+  induction s with
+  | nil => intro _; rfl
+  | cons x xs ih =>
+    intro h
+    have hx : x ≠ c := fun e => h (by simp [e])
+    have hxs : c ∉ xs := fun m => h (List.mem_cons_of_mem _ m)
+    simp [splitLast, ih hxs, hx]
+
+private theorem splitLast_spec (c : Char) (b : List Char) (hb : c ∉ b) :
+    ∀ a : List Char, splitLast c (a ++ c :: b) = some (a, b) := by
+  intro a
+  induction a with
+  | nil => simp [splitLast, splitLast_none c b hb]
+  | cons x xs ih => simp [splitLast, ih]
+
+private theorem takeWhile_ne (c : Char) (h t : List Char) (hh : c ∉ h) :
+    (h ++ c :: t).takeWhile (· != c) = h ∧ (h ++ c :: t).dropWhile (· != c) = c :: t := by
+  induction h with
+  | nil => simp
+  | cons x xs ih =>
+    have hx : x ≠ c := fun e => hh (by simp [e])
+    have hxs : c ∉ xs := fun m => hh (List.mem_cons_of_mem _ m)
+    have := ih hxs
+    simp [hx, this]
+
+private theorem not_contains {c : Char} {s : List Char} (h : c ∉ s) : s.contains c = false := by
+  simpa using h
+
+/-- **`net.SplitHostPort` inverts `net.JoinHostPort`** on every host without brackets and every port without
+`:`, `[`, `]` - whichever branch (bracketed or not) the join took. -/
+theorem split_join (host port : List Char) (h1 : '[' ∉ host) (h2 : ']' ∉ host)
+    (p1 : ':' ∉ port) (p2 : '[' ∉ port) (p3 : ']' ∉ port) :
+    splitHostPort (joinHostPort host port) = some (host, port) := by
+  unfold joinHostPort
+  split
+  · -- bracketed
+    have e : ('[' :: host ++ ']' :: ':' :: port) = ('[' :: host ++ [']']) ++ ':' :: port := by simp
+    unfold splitHostPort
+    rw [e, splitLast_spec ':' port p1]
+    simp only [List.cons_append, List.head?_cons, if_true, List.tail_cons]
+    have := takeWhile_ne ']' host (':' :: port) h2
+    simp only [List.append_assoc, List.cons_append, List.nil_append] at this ⊢
+    rw [this.1, this.2]
+    have c1 : (host ++ ']' :: ':' :: port).contains '[' = false := by
+      apply not_contains; simp [h1, p2]
+    have c2 : (':' :: port).contains ']' = false := by
+      apply not_contains; simp [p3]
+    simp [not_contains p1, c1, c2]
+    exact ⟨p1, ⟨h1, p2⟩, p3⟩
+  · -- plain
+    rename_i hc
+    have hcolon : ':' ∉ host := by
+      intro m; apply hc; simp [m]
+    unfold splitHostPort
+    rw [splitLast_spec ':' port p1]
+    have hh : (host ++ ':' :: port).head? ≠ some '[' := by
+      cases host with
+      | nil => simp
+      | cons x xs =>
+        have : x ≠ '[' := fun e => h1 (by simp [e])
+        simp [this]
+    have c1 : (host ++ ':' :: port).contains '[' = false := by apply not_contains; simp [h1, p2]
+    have c2 : (host ++ ':' :: port).contains ']' = false := by apply not_contains; simp [h2, p3]
+    have hh' : host.head?.getD ':' ≠ '[' := by
+      cases host with
+      | nil => simp
+      | cons x xs =>
+        have : x ≠ '[' := fun e => h1 (by simp [e])
+        simp [this]
+    simp [hh', not_contains hcolon, c1, c2]
+    exact ⟨hcolon, ⟨h1, p2⟩, h2, p3⟩
+
+/-- **The normalised address is dialable and keeps host and port**: for every well-formed address form, what
+`ensurePort` produces splits (by `net.SplitHostPort`, as the dialer will) into exactly the given host and the given
+port - or 5222 when none was given. -/
+theorem C20_dialable (f : Form) (h : f.wf = true) :
+    splitHostPort (ensurePort f.render defaultPort) = some (f.host, f.port.getD (itoa defaultPort)) := by
+  rw [C20_dial f h]
+  unfold Form.expected
+  have hw := h
+  unfold Form.wf at hw
+  simp only [Bool.and_eq_true] at hw
+  obtain ⟨hport, hkind⟩ := hw
+  -- the port is a digit string (given) or "5222"
+  have pd : ∀ c : Char, c.isDigit = false → c ∉ f.port.getD (itoa defaultPort) := by
+    intro c hc
+    cases hp : f.port with
+    | none =>
+      simp only [Option.getD_none]
+      have : itoa defaultPort = ['5', '2', '2', '2'] := by decide
+      rw [this]
+      intro m
+      simp at m
+      rcases m with rfl | rfl <;> simp [Char.isDigit] at hc
+    | some p =>
+      simp only [Option.getD_some]
+      rw [hp] at hport
+      exact digits_not_mem hport hc
+  have hb : '[' ∉ f.host ∧ ']' ∉ f.host := by
+    cases hk : f.kind <;> rw [hk] at hkind <;> simp only [Bool.and_eq_true] at hkind
+    · exact ⟨noneOf_not_mem hkind (by simp), noneOf_not_mem hkind (by simp)⟩
+    · exact ⟨noneOf_not_mem hkind.1.2 (by simp), noneOf_not_mem hkind.1.2 (by simp)⟩
+    · exact ⟨noneOf_not_mem hkind.2 (by simp), noneOf_not_mem hkind.2 (by simp)⟩
+  exact split_join f.host _ hb.1 hb.2 (pd ':' (by decide)) (pd '[' (by decide)) (pd ']' (by decide))
+
+example : splitHostPort "[::1]:5222".toList = some ("::1".toList, "5222".toList) := by decide
+example : splitHostPort "a:b:1".toList = none ∧ splitHostPort "[::1]".toList = none ∧ splitHostPort "host".toList = none := by decide
+
+end XmppVerif.Props.C20
+
+#print axioms XmppVerif.Props.C20.split_join
+#print axioms XmppVerif.Props.C20.C20_dialable
